@@ -81,7 +81,7 @@ pub struct HKb(pub KeyMode);
 impl HKb {
     pub fn of(&self, k: u64) -> (u64, u64) {
         match self.0 {
-            KeyMode::Transparent => (k, 0),
+            KeyMode::Transparent | KeyMode::Typed { .. } => (k, 0),
             KeyMode::Collide { m } => (k % m, mix(k) | 1),
         }
     }
@@ -139,6 +139,13 @@ pub enum CbKind {
     Reject,
 }
 
+fn mask_item(mut item: Item<Val>) -> Item<Val> {
+    if MASK_CONFLICT.load(Ordering::SeqCst) {
+        item.conflict = 0;
+    }
+    item
+}
+
 pub struct HCallbackFull;
 impl CacheCallback for HCallbackFull {
     type Value = Val;
@@ -147,10 +154,12 @@ impl CacheCallback for HCallbackFull {
     }
     fn on_evict(&self, item: Item<Val>) {
         let (c, t) = item.exp.verif_parts();
+        let item = mask_item(item);
         log(EvKind::Cb { kind: CbKind::Evict, val: item.val, index: item.index, conflict: item.conflict, cost: item.cost, created_ns: c, ttl_ns: t });
     }
     fn on_reject(&self, item: Item<Val>) {
         let (c, t) = item.exp.verif_parts();
+        let item = mask_item(item);
         log(EvKind::Cb { kind: CbKind::Reject, val: item.val, index: item.index, conflict: item.conflict, cost: item.cost, created_ns: c, ttl_ns: t });
     }
 }
@@ -259,6 +268,7 @@ pub enum ObsEv {
     Push { keys: Vec<u64>, kept: bool, queue_len: usize, closed: bool },
     Applied { keys: Vec<u64> },
     CostUpdate { key: u64, prev: i64, cost: i64 },
+    PolicyCleared,
 }
 
 #[derive(Serialize, Deserialize, Clone, Debug)]
@@ -271,6 +281,8 @@ pub enum EvKind {
     Obs(ObsEv),
     Checkpoint { id: usize, snap: Snap, quiescent: bool },
     Built { ok: bool, err: String, item_size: usize },
+    /// (key, index, conflict through the owned form, index and conflict through the borrowed form)
+    KeyMap(Vec<(u64, u64, u64, u64, u64)>),
     Note(String),
 }
 
@@ -303,6 +315,7 @@ fn obs_sink(o: Obs) {
         Obs::Push { keys, kept, queue_len, closed } => ObsEv::Push { keys, kept, queue_len, closed },
         Obs::Applied { keys } => ObsEv::Applied { keys },
         Obs::CostUpdate { key, prev, cost } => ObsEv::CostUpdate { key, prev, cost },
+        Obs::PolicyCleared => ObsEv::PolicyCleared,
     };
     log(EvKind::Obs(e));
 }
@@ -330,6 +343,8 @@ pub trait Api: Send + Sync {
     fn snapshot(&self, keys: &[u64]) -> stretto::verif::Snapshot<Val>;
     fn metrics(&self) -> Option<MetricsSnap>;
     fn clone_box(&self) -> Box<dyn Api>;
+    /// (index, conflict) the cache's key builder assigns; `borrowed` asks through the borrowed form
+    fn key_hash(&self, k: u64, borrowed: bool) -> (u64, u64);
 }
 
 fn dur_ns(d: Duration) -> u64 {
@@ -409,6 +424,9 @@ macro_rules! snapshot_impl {
         }
         fn get_ttl(&self, k: u64) -> Option<u64> {
             SelfTy::get_ttl(self, &k).map(dur_ns)
+        }
+        fn key_hash(&self, k: u64, _borrowed: bool) -> (u64, u64) {
+            self.verif_key_hash(&k)
         }
     };
 }
@@ -525,6 +543,180 @@ mod async_impl {
     }
 }
 
+
+// ------------------------------------------------------------------------------------------
+// Real key types with the library's own key builders (C18 b)
+// ------------------------------------------------------------------------------------------
+
+pub static MASK_CONFLICT: std::sync::atomic::AtomicBool = std::sync::atomic::AtomicBool::new(false);
+
+macro_rules! typed_api {
+    ($name:ident, $cache:ident, $builder:ident, $kty:ty, $kb:ty, $mk_kb:expr, $conv:expr, $borrow:expr, [$($aw:tt)*], $fin:expr) => {
+        pub struct $name(pub $cache<$kty, Val, $kb, HCoster, HValidator, HCallback, SeedState>);
+        impl $name {
+            pub fn build(cfg: &Cfg, cb: HCallback) -> Result<Box<dyn Api>, String> {
+                let b = $builder::<$kty, Val, $kb>::new_with_key_builder(cfg.num_counters, cfg.max_cost, $mk_kb)
+                    .set_buffer_size(cfg.buffer_size)
+                    .set_buffer_items(cfg.buffer_items)
+                    .set_metrics(cfg.metrics)
+                    .set_ignore_internal_cost(cfg.ignore_internal_cost)
+                    .set_cleanup_duration(Duration::from_millis(cfg.cleanup_ms))
+                    .set_coster(HCoster(cfg.coster))
+                    .set_update_validator(HValidator(cfg.validator.clone()))
+                    .set_callback(cb)
+                    .set_hasher(SeedState(cfg.hasher_seed));
+                let fin = $fin;
+                fin(b).map(|c| Box::new($name(c)) as Box<dyn Api>).map_err(|e| format!("{:?}", e))
+            }
+        }
+        impl Api for $name {
+            fn insert(&self, k: u64, v: Val, cost: i64, ttl: Duration) -> Result<bool, String> {
+                let key: $kty = ($conv)(k);
+                if ttl.is_zero() {
+                    typed_api!(@w [$($aw)*] self.0.try_insert(key, v, cost)).map_err(|e| e.to_string())
+                } else {
+                    typed_api!(@w [$($aw)*] self.0.try_insert_with_ttl(key, v, cost, ttl)).map_err(|e| e.to_string())
+                }
+            }
+            fn insert_if_present(&self, k: u64, v: Val, cost: i64) -> Result<bool, String> {
+                let key: $kty = ($conv)(k);
+                typed_api!(@w [$($aw)*] self.0.try_insert_if_present(key, v, cost)).map_err(|e| e.to_string())
+            }
+            fn remove(&self, k: u64) -> Result<(), String> {
+                let key: $kty = ($conv)(k);
+                typed_api!(@w [$($aw)*] self.0.try_remove(&key)).map_err(|e| e.to_string())
+            }
+            fn get(&self, k: u64, hold: u32) -> Option<(Val, Val, u64)> {
+                let key: $kty = ($conv)(k);
+                let r = typed_api!(@w [$($aw)*] self.0.get(($borrow)(&key)))?;
+                let first = *r.value();
+                let ttl = dur_ns(r.ttl());
+                hold_points(hold);
+                let last = *r.value();
+                r.release();
+                Some((first, last, ttl))
+            }
+            fn get_mut(&self, k: u64, write: Option<Val>, hold: u32) -> Option<(Val, Val)> {
+                let key: $kty = ($conv)(k);
+                let mut r = typed_api!(@w [$($aw)*] self.0.get_mut(($borrow)(&key)))?;
+                let prev = *r.value();
+                hold_points(hold);
+                if let Some(w) = write {
+                    r.write(w);
+                }
+                let left = *r.value();
+                r.release();
+                Some((prev, left))
+            }
+            fn get_ttl(&self, k: u64) -> Option<u64> {
+                let key: $kty = ($conv)(k);
+                self.0.get_ttl(($borrow)(&key)).map(dur_ns)
+            }
+            fn len(&self) -> usize {
+                self.0.len()
+            }
+            fn wait(&self) -> Result<(), String> {
+                typed_api!(@w [$($aw)*] self.0.wait()).map_err(|e| e.to_string())
+            }
+            fn clear(&self) -> Result<(), String> {
+                typed_api!(@w [$($aw)*] self.0.clear()).map_err(|e| e.to_string())
+            }
+            fn close(&self) -> Result<(), String> {
+                typed_api!(@w [$($aw)*] self.0.close()).map_err(|e| e.to_string())
+            }
+            fn update_max_cost(&self, v: i64) {
+                self.0.update_max_cost(v)
+            }
+            fn max_cost(&self) -> i64 {
+                self.0.max_cost()
+            }
+            fn snapshot(&self, keys: &[u64]) -> stretto::verif::Snapshot<Val> {
+                self.0.verif_snapshot(keys)
+            }
+            fn metrics(&self) -> Option<MetricsSnap> {
+                metrics_of(&self.0.metrics)
+            }
+            fn clone_box(&self) -> Box<dyn Api> {
+                Box::new($name(self.0.clone()))
+            }
+            fn key_hash(&self, k: u64, borrowed: bool) -> (u64, u64) {
+                let key: $kty = ($conv)(k);
+                if borrowed {
+                    self.0.verif_key_hash(($borrow)(&key))
+                } else {
+                    self.0.verif_key_hash(&key)
+                }
+            }
+        }
+    };
+    (@w [] $e:expr) => { $e };
+    (@w [async] $e:expr) => { rt::block_on($e) };
+}
+
+macro_rules! typed_int {
+    ($sname:ident, $aname:ident, $t:ty) => {
+        typed_api!($sname, Cache, CacheBuilder, $t, stretto::TransparentKeyBuilder<$t>, stretto::TransparentKeyBuilder::<$t>::default(), |k: u64| k as $t, |k| k, [], |b: CacheBuilder<$t, Val, stretto::TransparentKeyBuilder<$t>, HCoster, HValidator, HCallback, SeedState>| b.finalize());
+        typed_api!($aname, AsyncCache, AsyncCacheBuilder, $t, stretto::TransparentKeyBuilder<$t>, stretto::TransparentKeyBuilder::<$t>::default(), |k: u64| k as $t, |k| k, [async], |b: AsyncCacheBuilder<$t, Val, stretto::TransparentKeyBuilder<$t>, HCoster, HValidator, HCallback, SeedState>| b.finalize(async_spawner));
+    };
+}
+
+typed_int!(TI8s, TI8a, i8);
+typed_int!(TI16s, TI16a, i16);
+typed_int!(TI32s, TI32a, i32);
+typed_int!(TI64s, TI64a, i64);
+typed_int!(TIszs, TIsza, isize);
+typed_int!(TU8s, TU8a, u8);
+typed_int!(TU16s, TU16a, u16);
+typed_int!(TU32s, TU32a, u32);
+typed_int!(TU64s, TU64a, u64);
+typed_int!(TUszs, TUsza, usize);
+
+fn borrow_str(k: &String) -> &str {
+    k.as_str()
+}
+
+fn str_key(k: u64) -> String {
+    // a few shapes: short, long (> 8 bytes), shared prefixes
+    match k % 4 {
+        0 => format!("k{}", k),
+        1 => format!("a-rather-long-key-with-a-shared-prefix-{}", k),
+        2 => format!("{}", k),
+        _ => format!("키-{}-ключ", k),
+    }
+}
+typed_api!(TStrS, Cache, CacheBuilder, String, stretto::DefaultKeyBuilder<String>, stretto::DefaultKeyBuilder::<String>::default(), str_key, borrow_str, [], |b: CacheBuilder<String, Val, stretto::DefaultKeyBuilder<String>, HCoster, HValidator, HCallback, SeedState>| b.finalize());
+typed_api!(TStrA, AsyncCache, AsyncCacheBuilder, String, stretto::DefaultKeyBuilder<String>, stretto::DefaultKeyBuilder::<String>::default(), str_key, borrow_str, [async], |b: AsyncCacheBuilder<String, Val, stretto::DefaultKeyBuilder<String>, HCoster, HValidator, HCallback, SeedState>| b.finalize(async_spawner));
+
+fn build_typed(cfg: &Cfg, ty: &str, cb: HCallback) -> Result<Box<dyn Api>, String> {
+    let s = cfg.flavor == Flavor::Sync;
+    MASK_CONFLICT.store(ty == "string", Ordering::SeqCst);
+    match (ty, s) {
+        ("i8", true) => TI8s::build(cfg, cb),
+        ("i8", false) => TI8a::build(cfg, cb),
+        ("i16", true) => TI16s::build(cfg, cb),
+        ("i16", false) => TI16a::build(cfg, cb),
+        ("i32", true) => TI32s::build(cfg, cb),
+        ("i32", false) => TI32a::build(cfg, cb),
+        ("i64", true) => TI64s::build(cfg, cb),
+        ("i64", false) => TI64a::build(cfg, cb),
+        ("isize", true) => TIszs::build(cfg, cb),
+        ("isize", false) => TIsza::build(cfg, cb),
+        ("u8", true) => TU8s::build(cfg, cb),
+        ("u8", false) => TU8a::build(cfg, cb),
+        ("u16", true) => TU16s::build(cfg, cb),
+        ("u16", false) => TU16a::build(cfg, cb),
+        ("u32", true) => TU32s::build(cfg, cb),
+        ("u32", false) => TU32a::build(cfg, cb),
+        ("u64", true) => TU64s::build(cfg, cb),
+        ("u64", false) => TU64a::build(cfg, cb),
+        ("usize", true) => TUszs::build(cfg, cb),
+        ("usize", false) => TUsza::build(cfg, cb),
+        ("string", true) => TStrS::build(cfg, cb),
+        ("string", false) => TStrA::build(cfg, cb),
+        _ => Err(format!("unknown key type {}", ty)),
+    }
+}
+
 fn async_spawner(fut: futures::future::BoxFuture<'static, ()>) {
     // the two background futures: first the policy worker, then the cache processor
     static N: AtomicUsize = AtomicUsize::new(0);
@@ -541,6 +733,10 @@ pub fn build(cfg: &Cfg) -> Result<Box<dyn Api>, String> {
         CallbackMode::Full => HCallback::Full(HCallbackFull),
         CallbackMode::ExitOnly => HCallback::ExitOnly(HCallbackExitOnly),
     };
+    if let KeyMode::Typed { ty } = &cfg.keys {
+        return build_typed(cfg, ty, cb);
+    }
+    MASK_CONFLICT.store(false, Ordering::SeqCst);
     match cfg.flavor {
         Flavor::Sync => {
             let b = CacheBuilder::<u64, Val, HKb>::new_with_key_builder(cfg.num_counters, cfg.max_cost, kb)
@@ -591,7 +787,21 @@ fn snap_of_q(api: &dyn Api, universe: &[u64], kb: &HKb, quiescent: bool) -> Snap
             v.dedup();
             v
         };
-        let s = api.snapshot(&idx);
+        let mut s = api.snapshot(&idx);
+        if MASK_CONFLICT.load(Ordering::SeqCst) {
+            if let Some(es) = s.entries.as_mut() {
+                for e in es.iter_mut() {
+                    e.conflict = 0;
+                }
+            }
+            if let Some(bs) = s.buckets.as_mut() {
+                for (_, ks) in bs.iter_mut() {
+                    for kc in ks.iter_mut() {
+                        kc.1 = 0;
+                    }
+                }
+            }
+        }
         let s_len = s.entries.as_ref().map_or(0, |e| e.len());
         let s_max = s.policy.as_ref().map_or(0, |p| p.0);
         Snap {
@@ -692,6 +902,24 @@ pub fn do_op(api: &dyn Api, client: usize, idx: usize, op: &Op) {
 
 static SNAP_CTX: Mutex<Option<(Vec<u64>, KeyMode)>> = Mutex::new(None);
 
+fn log_keymap(api: &dyn Api, universe: &[u64]) {
+    let mask = MASK_CONFLICT.load(Ordering::SeqCst);
+    let km: Vec<(u64, u64, u64, u64, u64)> = universe
+        .iter()
+        .map(|k| {
+            let (i, c) = api.key_hash(*k, false);
+            let (bi, bc) = api.key_hash(*k, true);
+            // conflicts of DefaultKeyBuilder are seeded from thread_rng: log only their agreement
+            if mask {
+                (*k, i, (c == bc) as u64, bi, (c == bc) as u64)
+            } else {
+                (*k, i, c, bi, bc)
+            }
+        })
+        .collect();
+    log(EvKind::KeyMap(km));
+}
+
 struct Shared {
     /// number of clients currently waiting at the barrier (or finished)
     arrived: AtomicUsize,
@@ -710,6 +938,7 @@ pub fn run_plan(plan: &Plan) {
         Ok(Ok(a)) => {
             let sz = rt::atomic(|| a.snapshot(&[]).item_size);
             log(EvKind::Built { ok: true, err: String::new(), item_size: sz });
+            log_keymap(a.as_ref(), &plan.universe);
             a
         }
         Ok(Err(e)) => {
@@ -786,6 +1015,9 @@ pub fn run_plan(plan: &Plan) {
     let sh = shared.clone();
     rt::block("controller.join", &move || sh.finished.load(Ordering::SeqCst) >= n);
     rt::quiesce();
+    if matches!(plan.cfg.keys, KeyMode::Typed { .. }) {
+        rt::atomic(|| log_keymap(api.as_ref(), &plan.universe));
+    }
     let snap = snap_of(api.as_ref(), &plan.universe, &kb);
     log(EvKind::Checkpoint { id: cp, snap, quiescent: true });
     cp += 1;
